@@ -910,14 +910,49 @@ Lemma abort_run : forall n st pk e fd d r s,
   fin (iter (solo_step n st pk) 2 (mk_writer [] e fd d r Running, s)) r.
 Proof. intros. destruct d; simpl; unfold fin; simpl; auto. Qed.
 
+Lemma iter_S : forall {A} (f : A -> A) k x, iter f (S k) x = iter f k (f x).
+Proof. reflexivity. Qed.
+
+Lemma step_close : forall n st pk rest e i d r s,
+  solo_step n st pk (mk_writer ((TCloseTmp, true) :: rest) e (Some i) d r Running, s) =
+  match st with
+  | SClose => (mk_writer [] e None d (failres pk) Running, s)
+  | _ => (mk_writer rest e None d r Running, s)
+  end.
+Proof. intros. unfold solo_step, step, fault_for, site_hits. simpl. destruct st, pk; reflexivity. Qed.
+
+Lemma step_chmod : forall n st pk m rest e fd d r s i, dir s (NTemp 0) = Some i ->
+  solo_step n st pk (mk_writer ((TChmodTmp m, true) :: rest) e fd d r Running, s) =
+  match st with
+  | SChmod => (mk_writer [] e fd d (failres pk) Running, s)
+  | _ => (mk_writer rest e fd d r Running, set_ino s i (mk_inode (i_data (inodes s i)) m))
+  end.
+Proof.
+  intros. unfold solo_step, step, fault_for, site_hits. simpl. destruct st, pk; simpl; rewrite ?H; reflexivity.
+Qed.
+
+Lemma step_rename : forall n st pk rest e fd d r s i, dir s (NTemp 0) = Some i ->
+  solo_step n st pk (mk_writer ((TRenameTmpToTarget, true) :: rest) e fd d r Running, s) =
+  match st with
+  | SRename => (mk_writer [] e fd d (failres pk) Running, s)
+  | _ => (mk_writer rest e fd d r Running, set_dir (set_dir s NTarget (Some i)) (NTemp 0) None)
+  end.
+Proof.
+  intros. unfold solo_step, step, fault_for, site_hits. simpl. destruct st, pk; simpl; rewrite ?H; reflexivity.
+Qed.
+
 Lemma tail_run : forall n st pk i s,
   dir s (NTemp 0) = Some i ->
   fin (iter (solo_step n st pk) 5 (mk_writer (tl tail4) 0 (Some i) true ROk Running, s))
       (match st with SClose | SChmod | SRename => failres pk | _ => ROk end).
 Proof.
-  intros n st pk i s H. unfold fin.
-  destruct st; simpl; unfold solo_step, step, fault_for, site_hits; simpl; rewrite ?H; simpl; rewrite ?H; simpl;
-    destruct pk; simpl; rewrite ?H; simpl; auto.
+  intros n st pk i s H. unfold tail4, tl.
+  assert (H' : forall m, dir (set_ino s i (mk_inode (i_data (inodes s i)) m)) (NTemp 0) = Some i) by (intro; exact H).
+  rewrite iter_S, step_close.
+  destruct st; try (rewrite iter_S, (step_chmod _ _ _ _ _ _ _ _ _ _ i H); cbv iota;
+                    try (rewrite iter_S, (step_rename _ _ _ _ _ _ _ _ _ i (H' _)); cbv iota));
+    try apply abort_run;
+    try (eapply fin_reach; [apply abort_run|lia]).
 Qed.
 
 Lemma canon_exec : forall a b c n st pk old, 1 <= a + c ->
